@@ -163,7 +163,7 @@ type rewriter struct {
 	used     bool // simrt referenced
 	curFunc  string
 
-	commStmts map[ast.Stmt]bool      // comm statements of select clauses (handled by the select rewrite)
+	commStmts map[ast.Stmt]bool       // comm statements of select clauses (handled by the select rewrite)
 	commRecv  map[*ast.UnaryExpr]bool // receive expressions inside comm statements
 	recv2     map[*ast.UnaryExpr]bool // v, ok := <-c
 	rangeChan map[*ast.RangeStmt]bool
@@ -183,6 +183,15 @@ func isChan(t types.Type) bool {
 }
 
 var syncNames = map[string]bool{"Mutex": true, "RWMutex": true, "WaitGroup": true, "Once": true, "Pool": true, "Map": true, "Cond": true, "NewCond": true, "Locker": true}
+var atomicNames = func() map[string]bool {
+	m := map[string]bool{"Int32": true, "Int64": true, "Uint32": true, "Uint64": true, "Bool": true, "Value": true, "Pointer": true}
+	for _, op := range []string{"Load", "Store", "Add", "Swap", "CompareAndSwap"} {
+		for _, t := range []string{"Int32", "Int64", "Uint32", "Uint64"} {
+			m[op+t] = true
+		}
+	}
+	return m
+}()
 var timeNames = map[string]bool{"Now": true, "Since": true, "Sleep": true, "After": true, "Until": true}
 var timeBad = map[string]bool{"NewTimer": true, "NewTicker": true, "Tick": true, "AfterFunc": true, "Timer": true, "Ticker": true}
 var runtimeNames = map[string]bool{"GOMAXPROCS": true, "NumCPU": true}
@@ -279,6 +288,16 @@ func (r *rewriter) needed() bool {
 							need = true
 						} else {
 							unsupported(n.Pos(), "sync."+n.Sel.Name)
+						}
+					case "sync/atomic":
+						// functions and types alike have a counterpart of the
+						// same name in simrt (a scheduling point, then the
+						// real operation)
+						if atomicNames[n.Sel.Name] {
+							r.selSwap[n] = n.Sel.Name
+							need = true
+						} else {
+							unsupported(n.Pos(), "atomic."+n.Sel.Name)
 						}
 					case "time":
 						if timeNames[n.Sel.Name] {
@@ -433,7 +452,7 @@ func (r *rewriter) rewrite(src []byte) []byte {
 
 	astutil.Apply(r.file, nil, r.post)
 
-	for _, path := range []string{"sync", "time", "runtime"} {
+	for _, path := range []string{"sync", "sync/atomic", "time", "runtime"} {
 		if !astutil.UsesImport(r.file, path) {
 			astutil.DeleteImport(fset, r.file, path)
 		}
